@@ -229,7 +229,7 @@ func (e *e13) doStep(op *Op) *Violation {
 			if exists && st.name != name {
 				either = true // a directory created under another bucket name: not covered by the statement
 			}
-			if !exists && e.tainted[lk] {
+			if !exists && e.tainted[lk] && mode != "reopen" {
 				either = true // the directory outlived the deletion of its bucket (foreign file in it)
 			}
 		}
@@ -542,7 +542,7 @@ func (e *e13) probeAll() *Violation {
 		}
 	}
 	// directories
-	for _, loc := range []string{"dirA", "dirB"} {
+	for _, loc := range []string{"dirA", "dirB", "dira"} {
 		lk := filepath.Join(e.root, loc)
 		_, statErr := os.Stat(filepath.Join(lk, "rosmar.sqlite3"))
 		if e.stores[lk] != nil && statErr != nil {
@@ -565,6 +565,8 @@ func GenE13(prop string, seed uint64) *Program {
 		locs = []string{"mem"}
 	} else if r.Chance(30) {
 		locs = []string{"dirA", "dirB"}
+	} else if r.Chance(30) {
+		locs = []string{"dirA", "dira"} // two directories whose URLs differ only in case
 	}
 	modes := []string{"any", "any", "new", "reopen"}
 	withFeeds := prop == "C16" || r.Chance(30)
